@@ -38,6 +38,16 @@ int rdarg() { return rdparam(g); }
 int rdindex() { return CA[g]; }
 int rdcond() { if (g > 0) { return 1; } return 2; }
 int rdassert() { assert(g >= 0); return 1; }
+void fill(int &o) { o = g; }
+int viavoid() { int l; fill(l); return l; }
+void fill2(int &o) { fill(o); }
+int viavoid2() { int l; fill2(l); return l + 1; }
+void peek() { int t; t = g; }
+int viapeek() { peek(); return 1; }
+void fillconst(int &o) { o = N; }
+int viavoidpure() { int l; fillconst(l); return l; }
+void nothing() { int t; t = N; }
+int viapurevoid() { nothing(); return 1; }
 int pure() { return N + 1; }
 int pure2() { return pure() * K1; }
 int purearr() { return CA[1] + CS.f; }
@@ -46,8 +56,9 @@ int pureloop() { int i; int t = 0; for (i = 0; i < N; i++) { t += i; } return t;
 MUTABLE = ["g", "g + 1", "N + g", "a[0]", "a[N]", "s.f", "rd()", "rd2()", "rd3()", "rd4()", "rdarr()", "rdfield()", "rdif()",
            "rdloop()", "N + rd()", "(b ? 1 : g)", "(N > 1 ? g : 2)", "rdparam(g)", "rdparam(rd())", "pure() + rd2()", "abs(g)",
            "(g <? 3)", "CA[g]", "-g", "rdlocalinit()", "rdlocalarr()", "rdnestedarr()", "rdstructinit()", "rdwhile()", "rddo()",
-           "rditer()", "rdret()", "rdarg()", "rdindex()", "rdcond()", "rdassert()"]
-PURE = ["N", "N + 1", "K1", "K2", "K2 - K1", "pure()", "pure2()", "purearr()", "pureloop()", "rdparam(N)", "rdparam(pure())", "CA[0]",
+           "rditer()", "rdret()", "rdarg()", "rdindex()", "rdcond()", "rdassert()", "viavoid()", "viavoid2()", "viapeek()",
+           "rdparam(viavoid())"]
+PURE = ["viavoidpure()", "viapurevoid()", "N", "N + 1", "K1", "K2", "K2 - K1", "pure()", "pure2()", "purearr()", "pureloop()", "rdparam(N)", "rdparam(pure())", "CA[0]",
         "CA[N - 1]", "CS.f", "(N > 1 ? 2 : 3)", "(1 << N)", "abs(N)", "(K1 <? K2)", "3", "K1 * K2 % 5 + 1",
         "(sum (q : int[0,N]) q)", "(sum (q : int[0,1]) CA[q])"]
 
@@ -93,6 +104,29 @@ def free_param_cases():
                                                                            system="Q(const int[0,3] z) = P(z);\nsystem Q;"), True))
         out.append(("bound-parameter-forwarded:" + nm, xmlgen.simple_model(decl=DECL, params="const int[0,3] n", tdecl=td,
                                                                             system="Q(const int[0,3] z) = P(z);\nQ1 = Q(1);\nsystem Q1;"), False))
+        # ... and through chains of partial instantiations that keep further parameters of their own
+        for depth in (2, 3):
+            for keep_extra in (False, True):
+                lines = []
+                prev, prevpars = "P", 1
+                for lv in range(depth):
+                    nm_i = "Q%d" % lv
+                    if keep_extra and lv == 0:
+                        lines.append("%s(const int[0,3] z%d, const int e%d) = %s(z%d);" % (nm_i, lv, lv, prev, lv))
+                        prevpars = 2
+                    elif prevpars == 2:
+                        lines.append("%s(const int[0,3] z%d) = %s(z%d, 1);" % (nm_i, lv, prev, lv))
+                        prevpars = 1
+                    else:
+                        lines.append("%s(const int[0,3] z%d) = %s(z%d);" % (nm_i, lv, prev, lv))
+                    prev = nm_i
+                tag = "chain%d%s:" % (depth, "+extra" if keep_extra else "")
+                if prevpars == 2:
+                    continue
+                out.append(("free-parameter-forwarded-" + tag + nm, xmlgen.simple_model(decl=DECL, params="const int[0,3] n", tdecl=td,
+                                                                                       system="\n".join(lines) + "\nsystem %s;" % prev), True))
+                out.append(("bound-parameter-forwarded-" + tag + nm, xmlgen.simple_model(decl=DECL, params="const int[0,3] n", tdecl=td,
+                                                                                        system="\n".join(lines) + "\nB1 = %s(2);\nsystem B1;" % prev), False))
     # a free parameter that is NOT used in an array size is fine
     out.append(("free-parameter:guard-only", xmlgen.simple_model(decl=DECL, params="const int[0,3] n", edges=[("id0", "id0", [("guard", "g < n")])], system="system P;"), False))
     out.append(("free-parameter:range-bound", xmlgen.simple_model(decl=DECL, params="const int[0,3] n", tdecl="int[0, n] lr;", system="system P;"), False))
